@@ -8,7 +8,7 @@ HOOK_COMMITS = ["6837c9b"]
 CHECKS = {
     "C01": dict(
         technique="reference-model monitor: exact rational 4x4 scanline model evaluated on every pixel of generated fills",
-        text="Every pixel of every generated fill (random, directed, and in the thorough tier every quarter-grid triangle on a 2x2 surface) is compared with an exact integer model of the statement; held on the cases run, nothing is proved.",
+        text="Every pixel of every generated fill (random, directed, and in the thorough tier every quarter-grid triangle on a 2x2 surface) is compared with an exact integer model of the statement; held on the cases run, nothing is proved. Also: surfaces 8191..70000 px long in one direction, 100-300 coincident contours, outlines doubled and sides split by collinear vertices, and exact grid-preserving transforms (the model evaluated on the exactly transformed polygon).",
         note="Trusts the observation identity white-on-transparent alpha == coverage byte (all four channels are checked to agree), the i128 model in harness/src/checks/c01.rs, and leaves pixels with an edge crossing inside the fixed-point ambiguity band unasserted (counted in the evidence).",
         ref="DESIGN.md section 3, C01",
     ),
@@ -38,7 +38,7 @@ CHECKS = {
     ),
     "C16": dict(
         technique="lock-step monitor over Path::flatten output with an f64 curve oracle (closest-point distance, parameter order, deviation), plus fill/hit-test agreement of the flattened path",
-        text="Random paths in every op order (curves first, after MoveTo, directly after Close, consecutive Closes, coincident control points, coordinates to +-4000) and tolerances 1e-3..10: MoveTo/LineTo/Close preserved bit for bit and in order; each curve's polyline equals the curve flattened alone from its true start, its vertices lie within tolerance of the curve in parameter order, end exactly at the end point and stay within 8 x tolerance of the curve. Held on the paths run.",
+        text="Random paths in every op order (curves first, after MoveTo, directly after Close, consecutive Closes, coincident control points, coordinates to +-4000) and tolerances 1e-3..10: MoveTo/LineTo/Close preserved bit for bit and in order; each curve's polyline equals the curve flattened alone from its true start, its vertices lie within tolerance of the curve in parameter order, end exactly at the end point and stay within 8 x tolerance of the curve. Held on the paths run. Also: geometry of a few thousandths of a unit at tolerances down to 1e-8, curves needing 5 000-30 000 segments, a curve millions of units away before the others, subpaths starting where an earlier one started, far quadratic control points in the fill cross-check.",
         note="The number of vertices per curve is taken from flattening that curve alone (which also asserts context independence). Up to 48 evenly spaced vertices per curve get the closest-point check.",
         ref="DESIGN.md section 3, C16",
     ),
@@ -50,25 +50,25 @@ CHECKS = {
     ),
     "C19": dict(
         technique="cross-view read/write monitor and PNG decode oracle; Miri run of the same workload for the unsafe re-slicing in the thorough tier",
-        text="Word packing, byte order of get_data_u8, writes through each view read back through the others, from_vec/from_backing/into_vec/into_inner round trips and write_png (decoded with the png crate: 8-bit RGBA, size, row-major, alpha unchanged, colour = floor(c*255/a), transparent pixels passed through) on surfaces 0..17 x 0..9 with every valid (alpha, colour) pair of one channel. Held on what was run.",
+        text="Word packing, byte order of get_data_u8, writes through each view read back through the others, from_vec/from_backing/into_vec/into_inner round trips and write_png (decoded with the png crate: 8-bit RGBA, size, row-major, alpha unchanged, colour = floor(c*255/a), transparent pixels passed through) on surfaces 0..17 x 0..9 with every valid (alpha, colour) pair of one channel. Held on what was run. Also: every word made of the bytes 0/1/127/128/254/255 as first, last and middle pixels, repeated exports with writes through every mutable view in between (also with a layer open), recycled vectors, file names that do not end in .png.",
         note="Little-endian machine assumed (as the statement does). PNG files go to /verif/.work and are removed.",
         ref="DESIGN.md section 3, C19",
     ),
     "C20": dict(
         technique="f64 evaluation of the ops returned by PathBuilder::rect/arc/finish and Path::transform",
-        text="rect corners and op order exact; arc: initial LineTo to the start point, every sampled curve point at distance r within 0.5%, angle monotone in the sweep's direction, total angle = sweep clamped to one turn, end point as expected; transform: every point mapped bit for bit, kinds/order/winding kept; finish: ops in call order, NonZero. Held on the parameters run.",
+        text="rect corners and op order exact; arc: initial LineTo to the start point, every sampled curve point at distance r within 0.5%, angle monotone in the sweep's direction, total angle = sweep clamped to one turn, end point as expected; transform: every point mapped bit for bit, kinds/order/winding kept; finish: ops in call order, NonZero. Held on the parameters run. Also: arcs chained on one circle, radii down to 7.6e-6, builder call sequences that name earlier points again (move_to onto the current point, a line back to the start before close, a rect at the end of a line).",
         note="Start angles limited to +-100 rad and angle checks skipped when the radius is below the f32 quantisation of the centre (no meaningful angles).",
         ref="DESIGN.md section 3, C20",
     ),
     "C18": dict(
         technique="online premultiplied-validity monitor on every buffer after every call, exhaustive colour-conversion enumeration",
-        text="Every pixel of every buffer after every call of the scene and pixel-lab workloads (valid destinations and sources only) must satisfy r,g,b <= a; Color/from_unpremultiplied_argb are enumerated over all 65536 (alpha, channel) pairs. Held on what was run; one known finding in the dependency (BlendMode::Color) is reported as KNOWN-FINDING.",
+        text="Every pixel of every buffer after every call of the scene and pixel-lab workloads (valid destinations and sources only) must satisfy r,g,b <= a; Color/from_unpremultiplied_argb are enumerated over all 65536 (alpha, channel) pairs. Held on what was run; one known finding in the dependency (BlendMode::Color) is reported as KNOWN-FINDING. Also: all 256 alpha bytes through the three surface blits, layers nested a dozen deep, text calls.",
         note="Runs in the val/rel builds where sw-composite returns the offending value instead of asserting; the known-finding signature requires mode Color and an invalid formula-of-record output for that exact (source, destination) pair.",
         ref="DESIGN.md section 3, C18",
     ),
     "C04": dict(
         technique="reference-model monitor: independently constructed stroke region (convex primitives in f64, mapped by the transform) evaluated on every pixel of generated strokes",
-        text="Generated strokes (polylines and curves, open/closed, directed turning angles incl. 0/90/180 degrees, widths 0.3..40, 3 caps x 3 joins, miter limits on both sides of the switch-over, translation/rotation/scale/shear/mirror transforms, both AA modes) rendered white on transparent; pixels deep inside the region must be fully painted, pixels deep outside untouched (margin 0.5 px straight, 1 px otherwise); non-positive and NaN widths must paint nothing. Held on the strokes run.",
+        text="Generated strokes (polylines and curves, open/closed, directed turning angles incl. 0/90/180 degrees, widths 0.3..40, 3 caps x 3 joins, miter limits on both sides of the switch-over, translation/rotation/scale/shear/mirror transforms, both AA modes) rendered white on transparent; pixels deep inside the region must be fully painted, pixels deep outside untouched (margin 0.5 px straight, 1 px otherwise); non-positive and NaN widths must paint nothing. Held on the strokes run. Also: strokes drawn under power-of-two user scales with the oracle unscaled, 100-513 passes over one segment, steps one f32 spacing long at 2^23/2^24, miter spikes thousands of pixels long, strokes 300-1500 units wide, strokes reaching in from outside under stretching transforms, subpaths that touch end to start.",
         note="Containment is conservative (pixel disc inside one primitive / clear of all primitives); pixels near the boundary, miter joins within 3% of their switch-over and near-cusp vertices are not asserted (counted). For curved paths the polyline is Path::flatten() at the stroker's tolerance, except curves whose points share one x or y, which are straightened in closed form.",
         ref="DESIGN.md section 3, C04",
     ),
@@ -80,7 +80,7 @@ CHECKS = {
     ),
     "C09": dict(
         technique="reference-model monitor: independent f64 arc-length dasher feeding the C04 region oracle, plus a polyline-level check of the private dash_path through the verif_dash_path hook",
-        text="Generated dashed strokes (open/closed subpaths, arrays of 1..6 positive entries incl. entries longer than the path and odd lengths, offsets of both signs up to +-2e4, all caps/joins) are compared pixel by pixel with the region of the independently dashed pieces (0.75 px margin); dash_path's output must conserve the on-length, stay on the input path and have the expected number of connected pieces; non-positive totals must paint nothing. Held on the cases run.",
+        text="Generated dashed strokes (open/closed subpaths, arrays of 1..6 positive entries incl. entries longer than the path and odd lengths, offsets of both signs up to +-2e4, all caps/joins) are compared pixel by pixel with the region of the independently dashed pieces (0.75 px margin); dash_path's output must conserve the on-length, stay on the input path and have the expected number of connected pieces; non-positive totals must paint nothing. Held on the cases run. Also: whole-number rectangles with whole dash lengths (boundaries exactly on vertices, round caps and joins), spokes from one centre, closed polygons of 28-80 sides inside the first dash, dashes turning straight back.",
         note="Cases with a dash boundary within 0.02 px of a vertex are skipped unless caps and joins are Round (cap orientation would flip on f32 rounding). The guard includes boundaries up to 1 px beyond either end of a subpath. Larger offsets are left to C07 (f32 period rounding moves the phase).",
         ref="DESIGN.md section 3, C09",
     ),
@@ -92,7 +92,7 @@ CHECKS = {
     ),
     "C10": dict(
         technique="fresh-twin history differential (exact) over long random call histories, steered by the verif_state hook; the same histories under AddressSanitizer and Miri in the thorough tier",
-        text="After every call of long random histories on one DrawTarget the call is replayed on a fresh target holding the same pixels, transform and clip stack and the pixels are compared bit for bit; histories are biased towards no-op draws and towards followers that make leftover cursor/rasteriser state visible. Held on the histories run; thorough adds ASan and Miri runs of the same workload (a sanitizer report is a violation).",
+        text="After every call of long random histories on one DrawTarget the call is replayed on a fresh target holding the same pixels, transform and clip stack and the pixels are compared bit for bit; histories are biased towards no-op draws and towards followers that make leftover cursor/rasteriser state visible. Held on the histories run; thorough adds ASan and Miri runs of the same workload (a sanitizer report is a violation). Also: surface blits (copy/blend_surface) and clear-blit-clear patterns, draws 40000 px off the surface, a palette of recurring solid colours, the same clip path pushed again, clip paths that outlive the layer they were pushed in.",
         note="The twin re-pushes clip paths pre-transformed under the identity (relies on C11's bit-identity). Layer groups are compared as one unit. One history in eight builds and uses every twin in a fresh thread (per-thread memory of the library is empty there); histories repeat the previous call with only the transform, or one ingredient of the source, changed. The hook never produces a verdict.",
         ref="DESIGN.md section 3, C10",
     ),
@@ -104,25 +104,25 @@ CHECKS = {
     ),
     "C12": dict(
         technique="reference-model monitor: analytic gradient parameter and stop interpolation in f64 evaluated at T^-1 of every pixel centre of generated gradient fills",
-        text="Generated linear/radial/two-circle/sweep gradients (1..5 increasing stops, three spreads, alpha, geometry inside/across/far outside the surface, random invertible transforms) observed through a full-surface Src fill; every channel must lie within 4/255 of the reference colour range for t within 3/255 (+|t|/255 for two-circle and sweep) of the pixel's t, folded through the spread. Held on what was run; sweeps with a non-zero start angle hit a known finding in sw-composite (exact signature).",
+        text="Generated linear/radial/two-circle/sweep gradients (1..5 increasing stops, three spreads, alpha, geometry inside/across/far outside the surface, random invertible transforms) observed through a full-surface Src fill; every channel must lie within 4/255 of the reference colour range for t within 3/255 (+|t|/255 for two-circle and sweep) of the pixel's t, folded through the spread. Held on what was run; sweeps with a non-zero start angle hit a known finding in sw-composite (exact signature). Also: gradients a few pixels long thousands of lengths away, sweeps of more than one turn, the current transform equal to the gradient's own frame, the same gradient observed through mask().",
         note="Pixels within 1.5 px of a sweep centre, on the sweep seam or at a two-circle double root are not asserted. The largest excess over the reference interval seen is reported (below 3 LSB on the unchanged tree).",
         ref="DESIGN.md section 3, C12",
     ),
     "C13": dict(
         technique="reference-model monitor: f64 image sampler (nearest texel / 4-bit bilinear weights, pad/repeat) evaluated at M(pixel centre) of generated image fills and draw_image calls",
-        text="Generated images with position-encoding texels, both extend modes and filters, alpha, source and current transforms (integer/fractional/half-texel translations, scales incl. negative, rotations, far beyond the edges): Nearest must return exactly the texel under the pixel centre, Bilinear the 4-bit-weighted interpolation within 1 LSB and exactly the texel at texel centres; draw_image_at/with_size_at are checked against the statement. Held on what was run.",
+        text="Generated images with position-encoding texels, both extend modes and filters, alpha, source and current transforms (integer/fractional/half-texel translations, scales incl. negative, rotations, far beyond the edges): Nearest must return exactly the texel under the pixel centre, Bilinear the 4-bit-weighted interpolation within 1 LSB and exactly the texel at texel centres; draw_image_at/with_size_at are checked against the statement. Held on what was run. Also: exact mirror transforms, pixel slices longer than the image, surfaces 300-900 px wide under a 1/64..1/128 scale with a compensating source translation, strongly minifying current transforms cancelled by the source transform.",
         note="Samples within the 16.16 conversion error of a texel or weight boundary accept either neighbour (counted); the band is zero for exact integer translations, so the integer fast paths must be exact.",
         ref="DESIGN.md section 3, C13",
     ),
     "C14": dict(
         technique="exact differential between the optimised and the general route on identical canary destinations",
-        text="fill_rect (integer rects incl. zero/negative/off-surface) vs fill(PathBuilder::rect), with vs without a covering clip rect, clear with vs without a covering clip, draw_image_at vs filling the image rectangle: pixel buffers must be identical for all 28 modes, all source kinds, alpha and both AA modes. Held on the pairs run.",
+        text="fill_rect (integer rects incl. zero/negative/off-surface) vs fill(PathBuilder::rect), with vs without a covering clip rect, clear with vs without a covering clip, draw_image_at vs filling the image rectangle: pixel buffers must be identical for all 28 modes, all source kinds, alpha and both AA modes. Held on the pairs run. Also: rectangles reaching 8192..32000 px beyond the surface, surface-sized images inside layers, gradient variants built by hand with arbitrary matrices, cone-shaped two-circle gradients with opaque stops.",
         note="Both routes run in the same library; the check decides agreement, not correctness of either (that is C03's job).",
         ref="DESIGN.md section 3, C14",
     ),
     "C15": dict(
         technique="reference block-transfer model evaluated on every destination pixel; small space enumerated completely in the thorough tier; ASan and Miri runs for the memory side",
-        text="copy_surface, blend_surface and blend_surface_with_alpha are compared per destination pixel with 'source pixel src_rect.min + (q - dst) lands on q iff it lies in src_rect and in the source'; sizes 0..3, rect corners in [-2,5], dst in [-4,5] (sampled in quick, all 3.1e8 combinations in thorough) plus larger and far-away cases; transform, clip and an open layer on the destination must be ignored. Held on what was run.",
+        text="copy_surface, blend_surface and blend_surface_with_alpha are compared per destination pixel with 'source pixel src_rect.min + (q - dst) lands on q iff it lies in src_rect and in the source'; sizes 0..3, rect corners in [-2,5], dst in [-4,5] (sampled in quick, all 3.1e8 combinations in thorough) plus larger and far-away cases; transform, clip and an open layer on the destination must be ignored. Held on what was run. Also: source rectangles wider than i32::MAX whose far corner still lands the block, sources with an open layer, clip or transform of their own, sources built from longer recycled vectors.",
         note="blend_surface is exact against the formula of record; blend_surface_with_alpha uses the C03 SrcOver rule (3 LSB between the exact end points).",
         ref="DESIGN.md section 3, C15",
     ),
